@@ -12,10 +12,13 @@
         verdicts `L:<start>:<stop>:-` (decodes) / `L:<start>:<stop>:<Kind>:<a>:<b>`
         (the decoder's error: kind, absolute location) / `L:<start>:<stop>:<Kind>:rel:<a>:<b>`
         (a string literal's escape error: the escaper's own range, relative to the content),
-        `F:…` for f-string text parts
+        `F:…` for f-string text parts (`F:<start>:<stop>:<Kind>:rel:<j>:<a>:<b>`: the escaper's
+        range relative to piece `j` of the text)
       → `ok <sexp> | <spans>` | `err <Kind> <start> <end> <hint> | <spans>`
         | `need L|F <start> <stop>` (no verdict in the table for this literal)
         | `panic` | `fuel` | `bad-utf8`
+    c06 fpieces <hex text>
+      → `pieces p:q,p:q,…`  the pieces `unescape_f_string_part` decodes one by one, by the model
     c06 crange <hex source | -> <start> <end>
       → `ok <a> <b>` | `panic`
     c06 cycle <old|fixed> <defs> <order: i,j,… | ->
@@ -94,7 +97,7 @@ def kindName' : EKind → String
 /-- one literal verdict: (is f-string part, start, stop, error); the error's range is
 ABSOLUTE (`isRel = false`: what the real parser reported) or RELATIVE to the content of
 the string literal (`isRel = true`: what the escaper itself reported) -/
-abbrev LitEntry := Bool × Nat × Nat × Option (RotoV.Parse.EKind × RotoV.Lex.Span × Bool)
+abbrev LitEntry := Bool × Nat × Nat × Option (RotoV.Parse.EKind × RotoV.Lex.Span × Bool × Nat)
 
 def parseLits (s : String) : Option (List LitEntry) :=
   if s = "-" then some [] else
@@ -114,12 +117,16 @@ def parseLits (s : String) : Option (List LitEntry) :=
         | _, _ => none
       | some (f, [a, b, k, x, y]) =>
         match a.toNat?, b.toNat?, kindOfName k, x.toNat?, y.toNat? with
-        | some a, some b, some k, some x, some y => some ((f, a, b, some (k, (x, y), false)) :: l)
+        | some a, some b, some k, some x, some y => some ((f, a, b, some (k, (x, y), false, 0)) :: l)
         | _, _, _, _, _ => none
       | some (f, [a, b, k, "rel", x, y]) =>
         match a.toNat?, b.toNat?, kindOfName k, x.toNat?, y.toNat? with
-        | some a, some b, some k, some x, some y => some ((f, a, b, some (k, (x, y), true)) :: l)
+        | some a, some b, some k, some x, some y => some ((f, a, b, some (k, (x, y), true, 0)) :: l)
         | _, _, _, _, _ => none
+      | some (f, [a, b, k, "rel", j, x, y]) =>
+        match a.toNat?, b.toNat?, kindOfName k, j.toNat?, x.toNat?, y.toNat? with
+        | some a, some b, some k, some j, some x, some y => some ((f, a, b, some (k, (x, y), true, j)) :: l)
+        | _, _, _, _, _, _ => none
       | _ => none) (some [])
 
 /-- the literal oracle of one request: no entry = "need this verdict". The table carries
@@ -133,8 +140,8 @@ def litOracle (src : List Char) (tbl : List LitEntry) (f : Bool) (s e : Nat) :
   | some x =>
     match x.2.2.2 with
     | none => none
-    | some (k, (a, b), true) => some (k, 0, a, b)
-    | some (k, (a, b), false) =>
+    | some (k, (a, b), true, j) => some (k, j, a, b)
+    | some (k, (a, b), false, _) =>
       if f then
         let t := RotoV.Parse.textOf src (s, e)
         let ps := RotoV.Parse.pieces t
@@ -238,6 +245,10 @@ def handle (args : List String) : String :=
         ⟨src, mkPreds t, litOracle src l, RotoV.Gen.ParseFacts.almostKeywords.map String.toList⟩)
     | none, _, _ => "bad-utf8"
     | _, _, _ => "bad-op"
+  | ["fpieces", hex] =>
+    match decode hex with
+    | some t => "pieces " ++ ",".intercalate ((RotoV.Parse.pieces t).map fun p => s!"{p.1}:{p.2}")
+    | none => "bad-utf8"
   | ["crange", hex, a, b] =>
     match decode hex, a.toNat?, b.toNat? with
     | some src, some a, some b =>
